@@ -76,7 +76,7 @@ Definition RSetExact (r : resp) (key value : bytes) : resp :=
   if beq key strContentType then RSetContentTypeBytes r value
   else if beq key strContentLength then
     match parseContentLength value with
-    | Some n => with_rh r (with_hclb (with_hcl (rh r) n) value)
+    | Some n => with_rh r (with_hh (with_hclb (with_hcl (rh r) n) value) (delAllArgsStable (hh (rh r)) strTransferEncoding))
     | None => r
     end
   else if beq key strContentEncoding then RSetContentEncodingBytes r value
@@ -176,15 +176,20 @@ Ltac beq_case c X E := destruct (beq c X) eqn:E; [apply beq_eq in E|].
 Ltac kill_ne := match goal with H : ?a <> ?a |- _ => contradiction H; reflexivity end.
 
 (* every branch of rvals at a name different from the one written reads unchanged fields *)
-Lemma rvals_frame_set r c v c' : c' <> c -> rvals (RSetExact r c v) c' = rvals r c'.
+Lemma rvals_frame_set r c v c' : peekAllArgs (hh (rh r)) strTransferEncoding = [] -> c' <> c -> rvals (RSetExact r c v) c' = rvals r c'.
 Proof.
-  intros Hne. unfold RSetExact.
+  intros Hte Hne. unfold RSetExact.
   beq_case c strContentType E1. { subst c. unfold rvals. rewrite (beq_ne_false _ _ Hne). reflexivity. }
   beq_case c strContentLength E2.
   { subst c. destruct (parseContentLength v); [|reflexivity]. unfold rvals.
     beq_case c' strContentType F1; [reflexivity|]. beq_case c' strContentEncoding F2; [reflexivity|].
-    beq_case c' strServer F3; [reflexivity|]. beq_case c' strConnection F4; [reflexivity|].
-    rewrite (beq_ne_false _ _ Hne). reflexivity. }
+    beq_case c' strServer F3; [reflexivity|].
+    beq_case c' strConnection F4. { subst c'. cbn. destruct (hclose (rh r)); [reflexivity|]. apply peekAll_del_other. discriminate. }
+    rewrite (beq_ne_false _ _ Hne).
+    beq_case c' strSetCookie F6; [reflexivity|]. beq_case c' strTrailer F7; [reflexivity|].
+    cbn. destruct (beq c' strTransferEncoding) eqn:F8.
+    - apply beq_eq in F8. subst c'. now rewrite peekAll_del_same, Hte.
+    - apply peekAll_del_other. now apply beq_false_ne. }
   beq_case c strContentEncoding E3.
   { subst c. unfold rvals. beq_case c' strContentType F1; [reflexivity|]. rewrite (beq_ne_false _ _ Hne). reflexivity. }
   beq_case c strConnection E4.
@@ -222,9 +227,9 @@ Proof.
   cbn. apply peekAll_set_other; assumption.
 Qed.
 
-Lemma rvals_frame_add r c v c' : c' <> c -> rvals (RAddExact r c v) c' = rvals r c'.
+Lemma rvals_frame_add r c v c' : peekAllArgs (hh (rh r)) strTransferEncoding = [] -> c' <> c -> rvals (RAddExact r c v) c' = rvals r c'.
 Proof.
-  intros Hne. unfold RAddExact. destruct (existsb (beq c) rspecials); [apply rvals_frame_set; assumption|].
+  intros Hte Hne. unfold RAddExact. destruct (existsb (beq c) rspecials); [apply rvals_frame_set; assumption|].
   unfold rvals.
   beq_case c' strContentType F1; [reflexivity|]. beq_case c' strContentEncoding F2; [reflexivity|].
   beq_case c' strServer F3; [reflexivity|].
@@ -335,7 +340,7 @@ Definition QSetExact (q : req) (key value : bytes) : req :=
   if beq key strContentType then QSetContentTypeBytes q value
   else if beq key strContentLength then
     match parseContentLength value with
-    | Some n => with_qh q (with_hclb (with_hcl (qh q) n) value)
+    | Some n => with_qh q (with_hh (with_hclb (with_hcl (qh q) n) value) (delAllArgsStable (hh (qh q)) strTransferEncoding))
     | None => q
     end
   else if beq key strConnection then
@@ -435,15 +440,20 @@ Definition qvals (q : req) (c : bytes) : list bytes :=
   else if beq c strTrailer then opt1 (jointr (htrailer (qh q)))
   else peekAllArgs (hh (qh q)) c.
 
-Lemma qvals_frame_set q c v c' : no_cookie_hh (hh (qh q)) -> c' <> c -> qvals (QSetExact q c v) c' = qvals q c'.
+Lemma qvals_frame_set q c v c' : peekAllArgs (hh (qh q)) strTransferEncoding = [] -> no_cookie_hh (hh (qh q)) -> c' <> c -> qvals (QSetExact q c v) c' = qvals q c'.
 Proof.
-  intros Hnc Hne. unfold QSetExact.
+  intros Hte Hnc Hne. unfold QSetExact.
   beq_case c strContentType E1.
   { subst c. unfold qvals. beq_case c' strHost F0; [reflexivity|]. rewrite (beq_ne_false _ _ Hne). reflexivity. }
   beq_case c strContentLength E2.
   { subst c. destruct (parseContentLength v); [|reflexivity]. unfold qvals.
     beq_case c' strHost F0; [reflexivity|]. beq_case c' strContentType F1; [reflexivity|]. beq_case c' strUserAgent F2; [reflexivity|].
-    beq_case c' strConnection F4; [reflexivity|]. rewrite (beq_ne_false _ _ Hne). reflexivity. }
+    beq_case c' strConnection F4. { subst c'. cbn. destruct (hclose (qh q)); [reflexivity|]. apply peekAll_del_other. discriminate. }
+    rewrite (beq_ne_false _ _ Hne).
+    beq_case c' strCookie F6; [reflexivity|]. beq_case c' strTrailer F7; [reflexivity|].
+    cbn. destruct (beq c' strTransferEncoding) eqn:F8.
+    - apply beq_eq in F8. subst c'. now rewrite peekAll_del_same, Hte.
+    - apply peekAll_del_other. now apply beq_false_ne. }
   beq_case c strConnection E4.
   { subst c. unfold qvals.
     beq_case c' strHost F0. { destruct (beq strClose v); [reflexivity|]. cbn. unfold hResetConnectionClose. destruct (hclose (qh q)); reflexivity. }
@@ -480,9 +490,9 @@ Proof.
   cbn. apply peekAll_set_other; assumption.
 Qed.
 
-Lemma qvals_frame_add q c v c' : no_cookie_hh (hh (qh q)) -> c' <> c -> qvals (QAddExact q c v) c' = qvals q c'.
+Lemma qvals_frame_add q c v c' : peekAllArgs (hh (qh q)) strTransferEncoding = [] -> no_cookie_hh (hh (qh q)) -> c' <> c -> qvals (QAddExact q c v) c' = qvals q c'.
 Proof.
-  intros Hnc Hne. unfold QAddExact. destruct (existsb (beq c) qspecials); [apply qvals_frame_set; assumption|].
+  intros Hte Hnc Hne. unfold QAddExact. destruct (existsb (beq c) qspecials); [apply qvals_frame_set; assumption|].
   unfold qvals.
   beq_case c' strHost F0; [reflexivity|]. beq_case c' strContentType F1; [reflexivity|]. beq_case c' strUserAgent F2; [reflexivity|].
   beq_case c' strConnection F4. { cbn. destruct (hclose (qh q)); [reflexivity|]. apply peekAll_append_other; assumption. }
